@@ -612,6 +612,12 @@ func (bc *Blockchain) CheckReorgs(txn adb.Txn, stats *Stats) (bool, error) {
 
 	// reorganize the chain
 	err := func() error {
+		// stats.TopHeight is what block application and validation take as "the height of the current tip"
+		// (stake unlock heights are derived from it). Keep it in step with the chain while blocks are
+		// disconnected and connected, as it is when the same blocks are applied one by one, and remember the
+		// old main chain tip for step 4.
+		oldTopHash, oldTopHeight, oldCumulativeDiff := stats.TopHash, stats.TopHeight, stats.CumulativeDiff
+
 		// step 1: iterate the altchain blocks in reverse order to find out the common block with mainchain
 		commonBlockHash := altHash
 		commonBlock, err := bc.GetBlock(txn, commonBlockHash)
@@ -693,10 +699,12 @@ func (bc *Blockchain) CheckReorgs(txn adb.Txn, stats *Stats) (bool, error) {
 					}
 
 					// remove block from state
+					stats.TopHeight = n.Height
 					err = bc.RemoveBlockFromState(txn, n, nHash, stats)
 					if err != nil {
 						return fmt.Errorf("could not remove block from state: %w", err)
 					}
+					stats.TopHeight = n.Height - 1
 
 					nHash = n.PrevHash()
 				}
@@ -729,6 +737,7 @@ func (bc *Blockchain) CheckReorgs(txn adb.Txn, stats *Stats) (bool, error) {
 				return fmt.Errorf("could not get block: %w", err)
 			}
 
+			stats.TopHeight = prevBl.Height
 			err = bc.checkBlock(txn, bl, prevBl, hashes[i].Hash, stats)
 			if err != nil {
 				return fmt.Errorf("block verification failed: %w", err)
@@ -745,10 +754,10 @@ func (bc *Blockchain) CheckReorgs(txn adb.Txn, stats *Stats) (bool, error) {
 
 		// add the old mainchain as an altchain tip
 		delete(stats.Tips, altHash)
-		stats.Tips[stats.TopHash] = &AltchainTip{
-			Hash:           stats.TopHash,
-			Height:         stats.TopHeight,
-			CumulativeDiff: stats.CumulativeDiff,
+		stats.Tips[oldTopHash] = &AltchainTip{
+			Hash:           oldTopHash,
+			Height:         oldTopHeight,
+			CumulativeDiff: oldCumulativeDiff,
 		}
 
 		// set the new mainchain
